@@ -238,7 +238,7 @@ def judge(sc, res, r):
                              "call %s on %s was issued after _metadata had been opened for writing" % (r["fired"][1], r["fired"][2])))
         if r["read"] != "old":
             problems.append(("failed-before-metadata-but-content-changed",
-                             "append raised (%s) before _metadata was opened for writing, but a fresh open reads %s (%s)" % (
+                             "append raised (%s) while it was still writing part files / before _metadata was opened for writing, but a fresh open reads %s (%s)" % (
                                  r["raised"], r["read"], r.get("read_detail"))))
         if r["changed_old"] or not r["md_same"]:
             problems.append(("failed-before-metadata-but-bytes-changed", "changed: %s, _metadata same: %s" % (r["changed_old"][:3], r["md_same"])))
